@@ -7,7 +7,8 @@ bit for bit.  Bernoulli encoders: the model's probabilities are fed to torch.ber
 and call pattern and the outcome must equal the implementation's.
 Direct oracle (independent of the Coq model): shape / number of slices / dtype, silence at zero intensity,
 minimum gap and at-most-one-spike-per-refractory-window for the refractory Poisson encoder,
-reproducibility from the same generator state, constructor validation.
+reproducibility from the same generator state, constructor validation; every online encoder is consumed both
+slice by slice and gathered-then-stacked (same seed) and the gathered slices must not share storage.
 """
 from __future__ import annotations
 import glob, json, math, os, random
@@ -33,16 +34,14 @@ LEVEL_NOTE = ("Trusted: Coq kernel; the hand-written model coq/C19/Encoders.v (v
               "[u < p]), cumsum/scatter_/masked assignment modelled by their meaning; replay of sampler calls on an "
               "identically seeded generator. Real-number theorems use the stdlib real axioms. NOT proved: floating-point "
               "rounding (refrac/dt just below an integer), statistical properties (rates), generator-state reproducibility "
-              "(oracle only). Known defect modelled as coded: the online exp-interval encoder raises unless every element "
-              "spikes or there is a single element (theorem exp_online_shape_refuted).")
+              "(oracle only), that online slices are distinct tensors (oracle only: both consumption modes + alias probe).")
 EXPLANATION = ("Every encoder is modelled as a function of the sampled values (exponential / Poisson / uniform draws are inputs), so "
                "'for all generator seeds' becomes 'for all draw lists' and is proved by induction / order arguments in Coq: shape "
                "(steps rows, time first, input size), silence at zero intensity (period +inf -> index `steps`, cut off; masked "
                "out; probability 0), minimum gap floor(refrac/dt) and at-most-once-per-window for the refractory Poisson encoder "
                "offline (sorted cumulative times, floor(c + d) - floor(c) >= floor(d)) and online (countdown invariant), rate "
-               "limit, exact spike-time characterisations (floor of partial sums; countdown waits), and the two defects as "
-               "theorems (online encoder completes only if all elements fire; gap fails outside frequency*refrac < 1000 which "
-               "the constructor accepts).  The model is run inside Coq on the draws replayed from the real encoders and must "
+               "limit, exact spike-time characterisations (floor of partial sums; countdown waits), and a witness that the gap "
+               "fails outside frequency*refrac < 1000, which the constructor accepts.  The model is run inside Coq on the draws replayed from the real encoders and must "
                "reproduce their spike tensors exactly; the direct oracle evaluates the property on the real outputs.")
 TRUSTED = ["C19: replay of the encoders' sampler calls on a second identically seeded torch.Generator (tools/impl/c19_impl.py) - if the "
            "implementation changes its sampling calls the correspondence breaks and the direct oracle takes over",
@@ -116,8 +115,6 @@ def gen_case(rng: random.Random, stream: str):
         steps = rng.choice([1, 2, 3, 5, 8, 12, 16, 20, 24])
         dt = rng.choice(DTS)
         shape = rng.choice(SHAPES)
-        if kind in ("hpe", "f_exp") and online and rng.random() < 0.45:
-            shape = rng.choice([[1], [1, 1]])       # the only shapes the coded online encoder completes on
         n = nel(shape)
         refrac = None
         kmul = None
@@ -268,8 +265,7 @@ def q_case(c, r):
     xs = q_fl(c["x"])
     if k == "hpe":
         if c["online"]:
-            return (f"run_hpe_online {q_shape(c['shape'])} {q_cfg(c)} {xs} {q_fl(r.get('draws0', []))} "
-                    f"{q_fll(r.get('draws_steps', []))}")
+            return f"run_hpe_online {q_cfg(c)} {xs} {q_fl(r.get('draws0', []))} {q_fll(r.get('draws_steps', []))}"
         return f"run_hpe_offline {q_cfg(c)} {xs} {q_fll(r.get('draws', []))}"
     if k == "pie":
         if c["online"]:
@@ -281,13 +277,13 @@ def q_case(c, r):
     st = f"{int(c['steps'])}%nat"
     if k == "f_exp":
         if c["online"]:
-            return (f"run_f_exp_online {q_shape(c['shape'])} {st} {q_f(c['dt'])} {refrac} {F.coq_bool(c['comp'])} {xs} "
+            return (f"run_f_exp_online {st} {q_f(c['dt'])} {refrac} {F.coq_bool(c['comp'])} {xs} "
                     f"{q_fl(r.get('draws0', []))} {q_fll(r.get('draws_steps', []))}")
         return (f"run_f_exp_offline {st} {q_f(c['dt'])} {refrac} {F.coq_bool(c['comp'])} {xs} "
                 f"{q_fll(r.get('draws', []))}")
     if k == "f_pint":
         if c["online"]:
-            return (f"ser_online (pi_online FN {st} {xs} {q_zl(r.get('draws0', []))} "
+            return (f"ser_matrix (pi_online FN {st} {xs} {q_zl(r.get('draws0', []))} "
                     f"{q_zll(r.get('draws_steps', []))})")
         return f"ser_result ser_matrix (pi_offline FN {st} {xs} {q_zll(r.get('draws', []))})"
     if k == "f_bern":
@@ -305,8 +301,7 @@ def is_bern(c):
 
 
 def compare(c, r, m, bern_out):
-    """returns None (agree), a dict describing the disagreement, or the string 'repaired' when the implementation
-    behaves as the element-wise reading of the online exp-interval encoder where the coded model raises"""
+    """returns None (agree) or a dict describing the disagreement"""
     k = c["kind"]
     if is_bern(c):
         if k == "hpa":
@@ -328,35 +323,15 @@ def compare(c, r, m, bern_out):
         if r["status"] != "ok":
             return {"model": "ok", "impl": "raised", "msg": r["msg"]}
         return None if m[1] == r["out"] else {"what": "spike tensors differ", "model": m[1], "impl": r["out"]}
-    # online
-    if k in ("hpe", "f_exp"):
-        coded, elem = m
-        if k == "hpe":
-            if coded[0] == 1:
-                ok = r["status"] == "raised" and r["exc"] == coded[1]
-                return None if ok else {"model": "Err %d" % coded[1], "impl": r["status"], "msg": r["msg"]}
-            coded, elem = coded[1], elem[1]
-        rows, raised = coded[0], bool(coded[1])
-        if r["status"] == "raised":
-            if raised and r["exc"] == 1 and rows == r["out"]:
-                return None
-            return {"model": {"raised": raised, "slices": rows}, "impl": {"raised": True, "exc": r["exc"], "slices": r["out"], "msg": r["msg"]}}
-        if not raised:
-            return None if rows == r["out"] else {"what": "slices differ", "model": rows, "impl": r["out"]}
-        # the coded model raises but the implementation completed: accept the element-wise reading
-        if elem[0] == r["out"] and not elem[1]:
-            return "repaired"
-        return {"what": "coded model raises, implementation completes but differs from the element-wise reading",
-                "model_elementwise": elem[0], "impl": r["out"]}
-    # poisson interval online
-    if k == "pie":
+    # online: the model returns the list of yielded slices (class entry points wrap it in Ok / Err)
+    if k in ("hpe", "pie"):
         if m[0] == 1:
             ok = r["status"] == "raised" and r["exc"] == m[1]
             return None if ok else {"model": "Err %d" % m[1], "impl": r["status"], "msg": r["msg"]}
         m = m[1]
     if r["status"] != "ok":
-        return {"model": "ok", "impl": "raised", "msg": r["msg"]}
-    return None if (m[0] == r["out"] and not m[1]) else {"what": "slices differ", "model": m[0], "impl": r["out"]}
+        return {"model": "ok", "impl": "raised", "msg": r["msg"], "slices_before_raising": r["out"]}
+    return None if m == r["out"] else {"what": "slices differ", "model": m, "impl": r["out"]}
 
 
 # ------------------------------------------------------------------ direct oracle (property statement on the implementation)
@@ -387,12 +362,7 @@ def oracle(c, r):
     if r["status"] == "raised":
         if not dom and r["exc"] == 1 and not c["online"]:
             return fails          # documented: outside the domain the output is nonsensical (negative index)
-        if k in ("hpe", "f_exp") and c["online"] and r["exc"] == 1 and n > 1 and r.get("stage") == "iterate":
-            fail("online_exp_interval_shape",
-                 {"what": "online exp-interval encoder raised instead of yielding `steps` slices",
-                  "yielded": r["nslices"], "steps": steps, "msg": r["msg"]})
-        else:
-            fail("raised", {"msg": r["msg"], "yielded": r["nslices"], "steps": steps})
+        fail("raised", {"msg": r["msg"], "yielded": r["nslices"], "steps": steps})
         return fails
     # 1. shape / number of slices / dtype
     if r["nslices"] != steps or not r["shape_ok"] or not r["dtype_ok"] or any(len(row) != n for row in r["out"]):
@@ -427,9 +397,24 @@ def oracle(c, r):
             if cnt > -(-steps // g):
                 fail("rate_limit", {"element": j, "spikes": cnt, "limit": -(-steps // g)})
                 break
-    # 4. reproducible from the same generator state
+    # 4. online: every yielded slice is a tensor of its own - gathering the slices with list(...) and stacking
+    #    them afterwards must give the same train as copying each slice out when it is yielded
+    g = r.get("gather") or {}
+    al = g.get("alias") or {}
+    if c["online"] and g.get("status") == "ok":
+        if al.get("shared_data_ptr") or al.get("mutation_leaks"):
+            gout = g.get("out") or []
+            rows_differ = [t for t in range(min(len(out), len(gout))) if out[t] != gout[t]]
+            fail("online_slices_aliased",
+                 {"what": "slices yielded by the online encoder share storage: a train gathered with list(...) and "
+                          "stacked is not the train read slice by slice",
+                  "alias_probe": al, "steps_that_differ": rows_differ[:8],
+                  "slice_by_slice": out[:6], "gathered_then_stacked": gout[:6]})
+            return fails
+    # 5. reproducible from the same generator state (second run, same seed; online: other consumption mode)
     if not r["repro"]:
-        fail("not_reproducible", {"what": "two runs from the same generator seed differ"})
+        fail("not_reproducible", {"what": "two runs from the same generator seed differ",
+                                  "second_run": {k2: g.get(k2) for k2 in ("status", "exc", "msg", "nslices")}})
     return fails
 
 
@@ -483,7 +468,7 @@ def run(ctx):
         cases += exhaustive_cases()
     impl, model, bout = evaluate(cases)
     mismatches, oracle_fail = [], []
-    repaired = 0
+    online_probed = 0
     spikes_total = 0
     gaps_checked = 0
     last_step = [0, 0]      # poisson_interval offline: active elements / of which fire at the last step
@@ -497,6 +482,8 @@ def run(ctx):
         if c["kind"] in ("hpe", "f_exp") and r["status"] == "ok" and in_domain(c) and config_valid(c):
             for j in range(nel(c["shape"])):
                 gaps_checked += max(0, sum(row[j] for row in r["out"]) - 1)
+        if c["online"] and (r.get("gather") or {}).get("alias") is not None:
+            online_probed += 1
         fs = oracle(c, r)
         for f in fs:
             oracle_fail.append({"case": c, "detail": f["detail"], "signature": f["signature"]})
@@ -506,12 +493,11 @@ def run(ctx):
             mismatches.append({"case": c, "detail": str(m)})
             continue
         d = compare(c, r, m, b)
-        if d == "repaired":
-            repaired += 1
-        elif d is not None:
+        if d is not None:
             mismatches.append({"case": c, "detail": d})
 
     # distinct kinds of failure first (the driver reports the first few)
+    oracle_fail.sort(key=lambda f: 0 if f["detail"].get("steps_that_differ") else 1)   # stable: visible ones first
     seen, first, rest = set(), [], []
     for f in oracle_fail:
         kd = f["signature"]["kind"]
@@ -529,13 +515,14 @@ def run(ctx):
                 "steps 1..24, 7 step times, refrac None / 0 / k*dt (k<=7) / non-multiples, compensation on/off, 10 input "
                 "shapes, intensities with forced exact 0 and 1, frequencies up to the edge of the documented domain; every "
                 "8th case malformed (invalid constructor arguments, rate*refrac >= 1000), every 40th with a -0.0 intensity); "
-                "non-trivial = at least two spikes or an exception; distinct by full case text"
+                "online encoders consumed both slice-by-slice and gathered-then-stacked, gathered slices probed for shared "
+                "storage; non-trivial = at least two spikes or an exception; distinct by full case text"
                 + ("; plus a small-scope sweep of steps x refrac multiple x compensation x online" if ctx["tier"] == "thorough" else ""),
         "kind_distribution": dict(Counter(c["kind"] + ("/online" if c["online"] else "") for c in cases)),
         "stream_distribution": dict(Counter(c.get("stream", "corpus") for c in cases)),
         "impl_status": dict(Counter(r["status"] if r["status"] == "ok" else "raised:%s" % r["exc"] for r in impl)),
         "spikes_observed": spikes_total, "refractory_gaps_checked": gaps_checked,
-        "online_exp_cases_matching_elementwise_reading_only": repaired,
+        "online_cases_consumed_both_ways_and_alias_probed": online_probed,
         "side_observations": {
             "poisson_interval_offline_active_elements": last_step[0],
             "poisson_interval_offline_active_elements_firing_at_last_step": last_step[1],
@@ -558,6 +545,7 @@ def minimise(case):
         return case, None
     kind = fs[0]["signature"]["kind"]
     best, detail = case, fs[0]
+    visible = bool(fs[0]["detail"].get("steps_that_differ"))   # keep an observable difference while shrinking
     if case["kind"] == "f_inhomog":
         return best, detail["detail"]
     for _ in range(12):
@@ -574,7 +562,8 @@ def minimise(case):
         rs = F.run_impl(IMPL, {"cases": cands})
         nxt = None
         for cnd, rr in zip(cands, rs):
-            f = [f for f in oracle(cnd, rr) if f["signature"]["kind"] == kind]
+            f = [f for f in oracle(cnd, rr) if f["signature"]["kind"] == kind
+                 and (not visible or f["detail"].get("steps_that_differ"))]
             if f:
                 nxt = (cnd, f[0])
                 break
